@@ -99,6 +99,15 @@ def gen_alt(rng, al, kind, regs, de, gz, oid, consts):
         m = {'id': oid, 't': 'enumeration', 'code': {'n': 4, 'pos': pos, 'dict': [[k, v] for k, v in cd.items()]},
              'arg': dict(am, dict=[[k, v] for k, v in ad.items()])}
         return y, m
+    if kind == 'deco_indirect_register':
+        # `-[sp]`, `[hl]++` ...: the decorator stands outside the brackets
+        r = rng.choice(regs)
+        dk = rng.choice(list(DECOS))
+        pre = rng.random() < 0.5
+        y = {'type': 'indirect_register', 'register': r, 'bytecode': cy, 'decorator': {'type': dk, 'is_prefix': pre}}
+        m = {'id': oid, 't': 'indirect_register', 'r': r, 'code': cm, 'decoPre': DECOS[dk] if pre else '',
+             'decoPost': '' if pre else DECOS[dk]}
+        return y, m
     if kind == 'indirect_register':
         r = rng.choice(regs)
         y = {'type': 'indirect_register', 'register': r, 'bytecode': cy}
@@ -227,6 +236,10 @@ def form_for(rng, m, regs, consts):
     if t == 'deferred_numeric':
         v = num()
         return {'f': 'ind2', 'e': ('num', v)}, f'[[{v}]]'
+    if t == 'indirect_register' and (m.get('decoPre') or m.get('decoPost')):
+        r = rc(m['r'])
+        return ({'f': 'indDeco', 'pre': m.get('decoPre', ''), 'e': ('label', r), 'post': m.get('decoPost', '')},
+                m.get('decoPre', '') + '[' + rng.choice(['', ' ']) + r + rng.choice(['', ' ']) + ']' + m.get('decoPost', ''))
     if t == 'indirect_register':
         r = rc(m['r'])
         if 'offset' in m and rng.random() < 0.7:
@@ -333,7 +346,8 @@ def gen_case(rng, tier):
                 n_alt = rng.randint(1, 5)
                 has_deco = rng.random() < 0.25
                 pool = CLEAN if has_deco else ALLK
-                kinds = [rng.choice(pool) for _ in range(n_alt)] + (['deco_register'] if has_deco else [])
+                kinds = [rng.choice(pool) for _ in range(n_alt)] + \
+                    ([rng.choice(['deco_register', 'deco_register', 'deco_indirect_register'])] if has_deco else [])
                 rng.shuffle(kinds)
                 ov, om = {}, []
                 for k in kinds:
